@@ -3,6 +3,7 @@ package props
 import (
 	"encoding/json"
 	"fmt"
+	"strings"
 
 	"github.com/cockroachdb/errors"
 
@@ -282,7 +283,15 @@ func runC08(c *core.Ctx, r *core.Result) {
 	}
 	add(tm.Full(1))
 	add(tm.Full(2))
-	pool = append(pool, tm.Extras()...)
+	for _, x := range tm.Extras() {
+		// (the all-pairs pool is quadratic: the hand-picked terms that only vary
+		// a payload value — every gRPC code — or a size are represented by one
+		// of their kind)
+		if s := x.String(); (strings.Contains(s, "WrapWithGrpcCode#") && !strings.Contains(s, "WrapWithGrpcCode#16(")) || strings.Contains(s, "bytes)") || x.Depth() > 8 {
+			continue
+		}
+		pool = append(pool, x)
+	}
 	perturbBase := 3
 	if c.Thorough() {
 		add(tm.Core(3))
